@@ -28,7 +28,7 @@ def compare(impl, m):
             return None
         if a != b:
             return 'exception class: impl %s model %s' % (a, b)
-        if ires['msg'] != mres['msg'] and a not in INTERNAL:
+        if ires['msg'] != mres['msg'] and a not in INTERNAL and a != 'Unauthorized':
             return 'exception message: impl %r model %r' % (ires['msg'], mres['msg'])
     elif ires != mres:
         return 'result: impl %s model %s' % (json.dumps(ires)[:200], json.dumps(mres)[:200])
@@ -45,7 +45,8 @@ def run_cases(res, cases, plans=None, label=''):
     resp = common.run_driver(reqs) if res is None or res.have_driver else [None] * len(cases)
     out = []
     for c, (f, fc), rp in zip(cases, plans, resp):
-        impl = proggen.run_impl(c, f, fc)
+        guard = proggen.recording_guard(c.get('denied', []), c.get('deniedItems', [])) if c.get('guard') else None
+        impl = proggen.run_impl(c, f, fc, guard=guard)
         m = rp.get('ok') if rp else None
         if rp is not None and m is None:
             raise RuntimeError('driver: %r' % (rp,))
